@@ -119,8 +119,13 @@ class Run:
     # ----------------------------------------------------------------- finish
     def finish(self, seed: int = 0) -> int:
         known = [k for k in load_known() if k.get("property") == self.prop]
-        known_keys = {(k["property"], k["rule"], k["module"], k["scope"], k["construct"]): k
-                      for k in known if k.get("status") == "known"}
+        # an entry's "scope" may be a list: the same finding at several named instances (one line is printed for it)
+        known_keys = {}
+        for k in known:
+            if k.get("status") != "known":
+                continue
+            for sc in (k["scope"] if isinstance(k["scope"], list) else [k["scope"]]):
+                known_keys[(k["property"], k["rule"], k["module"], sc, k["construct"])] = k
         unlisted: List[Finding] = []
         listed: List[Finding] = []
         seen = set()
@@ -131,11 +136,32 @@ class Run:
             (listed if f.key() in known_keys else unlisted).append(f)
         if self.floor_failures and not unlisted:
             raise AnalysisError("; ".join(self.floor_failures))
+        printed = set()
         for f in listed:
-            print(f"KNOWN-FINDING: property={self.prop} rule={f.rule} {f.module}:{f.scope}:{f.construct} - {f.what}")
-        stale = [k for key, k in known_keys.items() if key not in {f.key() for f in listed}]
+            k = known_keys[f.key()]
+            if isinstance(k["scope"], list):
+                if id(k) in printed:
+                    continue
+                printed.add(id(k))
+                hit = [g.scope for g in listed if known_keys[g.key()] is k]
+                print(f"KNOWN-FINDING: property={self.prop} rule={f.rule} {f.module}:{f.construct} - {k.get('what', f.what)} "
+                      f"[{len(hit)} of the {len(k['scope'])} listed instances reproduce, e.g. {', '.join(hit[:4])}]")
+            else:
+                print(f"KNOWN-FINDING: property={self.prop} rule={f.rule} {f.module}:{f.scope}:{f.construct} - {f.what}")
+        listed_keys = {f.key() for f in listed}
+        stale, stale_seen = [], set()
+        for key, k in known_keys.items():
+            if isinstance(k["scope"], list):
+                # a multi-instance entry is stale only when none of its instances reproduces
+                if id(k) in stale_seen or any(kk in listed_keys for kk, kv in known_keys.items() if kv is k):
+                    continue
+                stale_seen.add(id(k))
+                stale.append(k)
+            elif key not in listed_keys:
+                stale.append(k)
         for k in stale:
-            print(f"note: listed known finding no longer reproduces: {k['rule']} {k['module']}:{k['scope']}:{k['construct']}")
+            sc = k['scope'] if not isinstance(k['scope'], list) else f"<{len(k['scope'])} instances>"
+            print(f"note: listed known finding no longer reproduces: {k['rule']} {k['module']}:{sc}:{k['construct']}")
         n_ob = len(self.obligations)
         n_ok = sum(1 for o in self.obligations if o["ok"])
         samples = self._samples()
